@@ -29,4 +29,48 @@ theorem same_ts_zero (cfg : Cfg) (d : UInt32) (t : Tag) (h : t.timestamp = d) :
   unfold wireTs Writer.rebase
   by_cases hc : cfg.clampOlder = true <;> simp [hc, h]
 
+/-- the joiner's time line (statement and documentation: `c02_flv_timeline_starts_at_zero`) -/
+theorem joiner_timeline (cfg : IpcHub.Flv.Cfg) (hs : cfg.sentinelInit = false)
+    (gop : Bool) (tags : List IpcHub.FlvCacheM.FTag) :
+    let c := IpcHub.FlvCacheM.cacheAfter gop tags
+    let w1 : IpcHub.Flv.Writer := { delta := UInt32.ofNat c.initTs, started := true }
+    (c.pushTo ≠ [] → ∃ first more, c.pushTo.map IpcHub.FlvCacheM.toTag = first :: more ∧
+        IpcHub.Flv.Writer.next cfg {} first = w1) ∧
+    (∀ t ∈ c.headers ++ c.gop.head?.toList, IpcHub.FlvCacheM.wireTs cfg w1 (IpcHub.FlvCacheM.toTag t) = 0) ∧
+    (∀ live : IpcHub.Flv.Tag, IpcHub.FlvCacheM.wireTs cfg (IpcHub.Flv.Writer.next cfg {} live) live = 0) := by
+  intro c w1
+  have hts : ∀ t ∈ c.headers ++ c.gop.head?.toList, (IpcHub.FlvCacheM.toTag t).timestamp = UInt32.ofNat c.initTs := by
+    intro t ht
+    simp only [List.mem_append] at ht
+    rcases ht with ht | ht
+    · simp only [IpcHub.FlvCacheM.FCache.headers, List.mem_map] at ht
+      obtain ⟨t', _, rfl⟩ := ht
+      simp [IpcHub.FlvCacheM.toTag, IpcHub.FlvCacheM.restamp]
+    · cases hg : c.gop with
+      | nil => simp [hg] at ht
+      | cons g0 rest =>
+        simp only [hg, List.head?_cons, Option.toList_some, List.mem_singleton] at ht
+        subst ht
+        simp [IpcHub.FlvCacheM.toTag, IpcHub.FlvCacheM.FCache.initTs, hg]
+  refine ⟨?_, ?_, ?_⟩
+  · -- the first tag handed to the writer is a header or the first GOP tag: both carry initTs
+    intro hne
+    have hpush : c.pushTo = c.headers ++ c.gop := rfl
+    cases hh : c.headers with
+    | nil =>
+      cases hg : c.gop with
+      | nil => exact absurd (by rw [hpush, hh, hg]; rfl) hne
+      | cons g0 rest =>
+        refine ⟨IpcHub.FlvCacheM.toTag g0, rest.map IpcHub.FlvCacheM.toTag, by simp [hpush, hh, hg], ?_⟩
+        have := hts g0 (by simp [hg])
+        simp [IpcHub.Flv.Writer.next, IpcHub.Flv.Writer.isFirst, hs, this, w1]
+    | cons h0 hrest =>
+      refine ⟨IpcHub.FlvCacheM.toTag h0, (hrest ++ c.gop).map IpcHub.FlvCacheM.toTag, by simp [hpush, hh], ?_⟩
+      have := hts h0 (by simp [hh])
+      simp [IpcHub.Flv.Writer.next, IpcHub.Flv.Writer.isFirst, hs, this, w1]
+  · intro t ht
+    exact IpcHub.FlvCacheM.same_ts_zero _ _ _ (hts t ht)
+  · intro live
+    exact IpcHub.FlvCacheM.first_tag_zero cfg hs live
+
 end IpcHub.FlvCacheM
